@@ -35,7 +35,13 @@ static inline void shape_tet(TK *m, int p, int q, int r, int s) {
   int h[6] = {shape_hf(m, p, q, r), shape_hf(m, p, r, s), shape_hf(m, p, s, q), shape_hf(m, q, s, r), 0, 0};
   shape_cell(m, 4, h, 1);
 }
+static inline void shape_build_(TK *m, int shape);
 static inline void shape_build(TK *m, int shape) {
+  static const int expect_cells[N_SHAPES] = {1, 1, 2, 1, 0, 3, 3};
+  shape_build_(m, shape);
+  if ((int)m->cells_.size != expect_cells[shape]) ovm_exc = 99;      /* a construction step was rejected: the prebuild reports it */
+}
+static inline void shape_build_(TK *m, int shape) {
   tk_init(m);
   if (shape == SHAPE_TET) {
     shape_vertices(m, 4);
@@ -54,7 +60,7 @@ static inline void shape_build(TK *m, int shape) {
     int a[6] = {2 * f0 + 1, 2 * f1 + 1, 2 * f2 + 1, 2 * f3 + 1, 0, 0};
     shape_cell(m, 4, a, 1);
     int g1 = shape_face(m, 3, 1, 2, 4, 0).idx_, g2 = shape_face(m, 3, 2, 3, 4, 0).idx_, g3 = shape_face(m, 3, 3, 1, 4, 0).idx_;
-    int b2[6] = {2 * f3, 2 * g1 + 1, 2 * g2 + 1, 2 * g3 + 1, 0, 0};
+    int b2[6] = {2 * f3, 2 * g1, 2 * g2, 2 * g3, 0, 0};      /* the shared face from its other side; the new faces in their vertex order (consistent orientation) */
     shape_cell(m, 4, b2, 1);
   } else if (shape == SHAPE_QUADPILLOW) {
     shape_vertices(m, 4);
